@@ -90,6 +90,7 @@ type ShardEnv struct {
 	ID      uint32
 	Factory interface {
 		GasScheduleChange(map[string]map[string]uint64)
+		CreateBuiltInFunctionContainer() (vmcommon.BuiltInFunctionContainer, error)
 	}
 	Container vmcommon.BuiltInFunctionContainer
 	coord     *coordinator
@@ -138,9 +139,12 @@ func (n *Notifier) RegisterNotifyHandler(h vmcommon.EpochSubscriberHandler) {
 func (n *Notifier) IsInterfaceNil() bool { return n == nil }
 
 // Confirm notifies every subscriber.
-func (n *Notifier) Confirm(epoch uint32) {
+func (n *Notifier) Confirm(epoch uint32) { n.ConfirmAt(epoch, 0) }
+
+// ConfirmAt notifies every subscriber with the given header timestamp.
+func (n *Notifier) ConfirmAt(epoch uint32, timestamp uint64) {
 	for _, s := range n.Subs {
-		s.EpochConfirmed(epoch, 0)
+		s.EpochConfirmed(epoch, timestamp)
 	}
 }
 
@@ -201,6 +205,13 @@ func NewEnv(cfg EnvConfig) (*Env, error) {
 func (e *Env) ConfirmEpoch(epoch uint32) {
 	for _, s := range e.Shards {
 		s.notifier.Confirm(epoch)
+	}
+}
+
+// ConfirmEpochAt notifies every shard's subscribers with a header timestamp.
+func (e *Env) ConfirmEpochAt(epoch uint32, timestamp uint64) {
+	for _, s := range e.Shards {
+		s.notifier.ConfirmAt(epoch, timestamp)
 	}
 }
 
